@@ -21,7 +21,7 @@ func init() {
 		Explanation: "DECIDED (path, table and provenance rules): set-stores (every path of every flag.Value Set method in the command that can return a nil error has stored into the flag's target, unless the target pointer itself is nil) — an accepted-but-ignored value is a violation; rate-complete (after a non-zero frequency is stored, the time unit is stored on every accepting path, so an earlier -rate cannot leak its unit; the word \"infinity\" stores frequency 0; the default unit literal is \"1s\"; bare units get the prefix \"1\"; String's separator is the one Set splits on); unlimited-rate guard (maxWorkers == DefaultMaxWorkers ∧ rate.Freq == 0 → error, evaluated before any attack can start); verbatim (no case-folding or canonicalising call lies between the flag text and the stored header key / connect-to addresses; -connect-to stores src→dst under the key parts[0]:parts[1] after validating both with net.SplitHostPort and requiring exactly four parts); special values (-max-body and -dns-ttl map \"-1\" to -1 and otherwise propagate the parser's error; -max-body rejects values above MaxInt64); plumbing table (every flag name is registered once, bound to one attackOpts field, and that field reaches the documented consumer: option constructor, Attack argument, targeter argument or resolver); resolver address normalisation (default port 53, host:port / port range / IP validated, errors returned). " +
 			"NOT DECIDED: numeric meaning of every N/D, datasize notations and duration syntax are strconv / datasize / time behaviour.",
 		Assumptions: []string{"flag package calls Set once per occurrence in command-line order", "strconv.Atoi, time.ParseDuration, datasize.UnmarshalText parse as documented"},
-		MinObs:      30,
+		MinObs:      36,
 		Run:         runC19,
 	})
 }
@@ -298,25 +298,49 @@ func c19Rate(c *Ctx) {
 	})
 	has1s, hasPrefix := false, false
 	units := map[string]bool{}
-	eachInstr(fn, func(i ssa.Instruction) {
-		switch x := i.(type) {
-		case *ssa.Store:
-			if s, ok := constString(x.Val); ok && s == "1s" {
-				has1s = true
+	// the default unit "1s" and the "1"+unit prefix must reach time.ParseDuration's argument
+	for _, f := range region(fn) {
+		eachInstr(f, func(i ssa.Instruction) {
+			call, ok := i.(*ssa.Call)
+			if !ok || callName(&call.Call) != "time.ParseDuration" {
+				return
 			}
-		case *ssa.BinOp:
-			if x.Op == token.ADD {
-				if s, ok := constString(x.X); ok && s == "1" {
-					hasPrefix = true
+			flowsFrom(call.Call.Args[0], func(v ssa.Value) bool {
+				if s, ok := constString(v); ok && s == "1s" {
+					has1s = true
+				}
+				if bo, ok := v.(*ssa.BinOp); ok && bo.Op == token.ADD {
+					if s, ok := constString(bo.X); ok && s == "1" {
+						hasPrefix = true
+					}
+				}
+				// a literal slice element holding the default
+				if st, ok := v.(*ssa.Alloc); ok {
+					_ = st
+				}
+				return false
+			})
+		})
+		eachInstr(f, func(i ssa.Instruction) {
+			switch x := i.(type) {
+			case *ssa.Store:
+				if s, ok := constString(x.Val); ok && s == "1s" {
+					has1s = true
+				}
+			case *ssa.BinOp:
+				if x.Op == token.ADD {
+					if s, ok := constString(x.X); ok && s == "1" {
+						hasPrefix = true
+					}
+				}
+				if x.Op == token.EQL {
+					if s, ok := constString(x.Y); ok && s != "infinity" && s != "" && len(s) <= 3 {
+						units[s] = true
+					}
 				}
 			}
-			if x.Op == token.EQL {
-				if s, ok := constString(x.Y); ok && s != "infinity" {
-					units[s] = true
-				}
-			}
-		}
-	})
+		})
+	}
 	wantUnits := []string{"h", "m", "ms", "ns", "s", "us", "µs"}
 	var gotUnits []string
 	for u := range units {
@@ -695,11 +719,21 @@ func c19Resolver(c *Ctx) {
 				has53 = true
 				guarded := false
 				for _, f := range factsAt(bo.Block()) {
-					if call, isCall := f.Cond.(*ssa.Call); isCall && callName(&call.Call) == "strings.Contains" && !f.Val {
-						guarded = true
-					}
-					if u, isU := f.Cond.(*ssa.UnOp); isU && u.Op == token.NOT {
-						guarded = true
+					switch x := f.Cond.(type) {
+					case *ssa.Call:
+						// !strings.Contains(addr, ":") / !strings.ContainsRune(addr, ':')
+						if n := callName(&x.Call); (n == "strings.Contains" || n == "strings.ContainsRune" || n == "strings.ContainsAny") && !f.Val {
+							guarded = true
+						}
+					case *ssa.BinOp:
+						// strings.IndexByte(addr, ':') < 0  /  == -1  /  LastIndex…
+						if call, isCall := x.X.(*ssa.Call); isCall && strings.HasPrefix(callName(&call.Call), "strings.") && strings.Contains(callName(&call.Call), "Index") {
+							if k, isK := constInt(x.Y); isK {
+								if x.Op == token.LSS && k == 0 && f.Val || x.Op == token.EQL && k == -1 && f.Val || x.Op == token.GEQ && k == 0 && !f.Val || x.Op == token.NEQ && k == -1 && !f.Val {
+									guarded = true
+								}
+							}
+						}
 					}
 				}
 				if !guarded {
